@@ -17,7 +17,7 @@ use std::time::Duration;
 pub static INFO: PropInfo = PropInfo {
     id: "C20",
     level: "exploration",
-    rule: "one evaluation = one session of the real NetcodeServerTransport and 1-5 NetcodeClientTransports over 127.0.0.1 UDP sockets, single-threaded with virtual durations, through an in-path relay (one front socket the clients believe is the server, one back socket per client) that applies a seeded schedule to the real datagrams: drop, duplicate, delay / reorder, replay of old datagrams, bit corruption; applications submit messages on all three channel kinds both ways, disconnect from either side / either layer at seeded ticks, and reconnect with the same client id; secure and unsecure authentication. Oracles: right after every NetcodeServerTransport::update the server has no disconnected-but-present connection, the message layer's connected ids equal the ids the transport has an address for, and both counts agree; ServerEvents per id alternate Connected/Disconnected starting with Connected; every application- or peer-initiated disconnect is visible on the other side within timeout + 1 s of virtual time; every obtained message is a byte-identical submission of the same client / channel, in order on ordered channels and at most once on reliable ones; in interference-only runs (every timeout window sees a genuine datagram delivered each way) no session ends unless an application asked for it; every datagram seen by the relay is <= 1400 bytes. Non-trivial = the relay interfered (drop/dup/delay/replay/corrupt) AND at least one client connected AND at least one disconnect was propagated; distinct = fingerprints of the session history (connects, disconnects, message counts).",
+    rule: "one evaluation = one session of the real NetcodeServerTransport and 1-5 NetcodeClientTransports over 127.0.0.1 UDP sockets, single-threaded with virtual durations, through an in-path relay (one front socket the clients believe is the server, one back socket per client) that applies a seeded schedule to the real datagrams: drop, duplicate, delay / reorder, replay of old datagrams, bit corruption; applications submit messages on all three channel kinds both ways, disconnect from either side / either layer at seeded ticks, and reconnect with the same client id; secure and unsecure authentication. Oracles: right after every NetcodeServerTransport::update the server has no disconnected-but-present connection, the message layer's connected ids equal the ids the transport has an address for, and both counts agree; ServerEvents per id alternate Connected/Disconnected starting with Connected; every application- or peer-initiated disconnect is visible on the other side within timeout + 1 s of virtual time; every obtained message is a byte-identical submission of the same client / channel, in order on ordered channels and at most once on reliable ones; in interference-only runs (every timeout window sees a genuine datagram delivered each way) no session ends unless an application asked for it; every datagram seen by the relay is <= 1400 bytes. Non-trivial = the relay interfered (drop/dup/delay/replay/corrupt) AND at least one client connected AND at least one disconnect was propagated; distinct = fingerprints of the session history (connects, disconnects, message counts). In half of the clean-relay runs one client (with an id of its own) is MUTED: the relay drops every server-to-client session datagram for it, so the server holds its session while the client is still answering the challenge; its application then disconnects (client or transport API) and the server side must be gone within 6 ticks.",
     assumptions: &[
         "single-threaded endpoints, loopback delivery is effectively synchronous; a datagram the relay misses arrives one tick later (a legal delay)",
         "bounds are on virtual time (durations passed to update), never wall-clock",
@@ -40,6 +40,7 @@ pub static INFO: PropInfo = PropInfo {
         ("clean_relay_runs", 5),
         ("runs_with_same_id_twin", 20),
         ("silenced_client_timed_out", 5),
+        ("disconnect_during_handshake_with_server_session", 5),
     ],
     engines_quick: &["e1"],
     engines_thorough: &["e1", "e3"],
@@ -131,6 +132,9 @@ struct World {
     /// (as if the Disconnect and everything after it were lost) and keeps replaying a stale handshake
     /// datagram to it instead
     silenced: Option<(usize, u32)>,
+    /// clean-relay scenario: every server->client session datagram (keep-alive, payload, disconnect) for this peer is
+    /// dropped, so the server holds its session while the client is still answering the challenge
+    muted: Option<usize>,
     /// first server->client datagram seen per (peer, generation): a handshake reply (challenge)
     stale: HashMap<(usize, u32), Vec<u8>>,
 }
@@ -297,6 +301,7 @@ fn one_run_inner(ctx: &Ctx, out: &mut Outcome, run_seed: u64) {
         ev_state: HashMap::new(),
         server_closed: HashMap::new(),
         silenced: None,
+        muted: None,
         stale: HashMap::new(),
     };
     let n_clients = r.urange(1, max_clients.min(5));
@@ -322,6 +327,15 @@ fn one_run_inner(ctx: &Ctx, out: &mut Outcome, run_seed: u64) {
                 out.inconclusive(&format!("C20: twin client transport: {e}"));
                 return;
             }
+        }
+    }
+    // clean relay, sometimes: one client (with an id of its own) never hears the server's session datagrams; its
+    // application gives up while the client is still in the response step and the server already has the session
+    if clean_relay && r.chance(1, 2) {
+        let unique: Vec<usize> = (0..w.peers.len()).filter(|k| w.peers.iter().filter(|p| p.id == w.peers[*k].id).count() == 1).collect();
+        if !unique.is_empty() {
+            w.muted = Some(*r.pick(&unique));
+            out.count("runs_with_muted_client");
         }
     }
     let total_ticks = r.range(60, if ctx.thorough() { 600 } else { 260 });
@@ -359,6 +373,29 @@ fn one_run_inner(ctx: &Ctx, out: &mut Outcome, run_seed: u64) {
                                 return;
                             }
                         }
+                    }
+                    continue;
+                }
+                if w.muted == Some(k) && w.peers[k].generation == 0 {
+                    // the application disconnects during the handshake, once the server has accepted the session
+                    let has_session = w.st.client_addr(id).is_some() && w.st.client_addr(id) == w.peers[k].back.local_addr().ok();
+                    if has_session && w.peers[k].client.is_connecting() && w.peers[k].transport.disconnect_reason().is_none() && r.chance(1, 4) {
+                        let who = if r.chance(1, 2) {
+                            w.peers[k].client.disconnect();
+                            "client_app"
+                        } else {
+                            w.peers[k].transport.disconnect();
+                            "client_transport"
+                        };
+                        out.count("disconnect_during_handshake_with_server_session");
+                        w.log(format!("DISCONNECT id {} by {} while the client is still in the response step (server session exists)", id, who));
+                        let p = &mut w.peers[k];
+                        p.app_closed = true;
+                        p.closed_at_ms = Some(w.now_ms);
+                        p.closed_by = who;
+                        // clean relay towards the server: the disconnect datagram arrives in order
+                        pending_closed_checks.push((k, p.generation, w.now_ms + 6 * dt, who));
+                        fp.u64(0xD15D ^ id);
                     }
                     continue;
                 }
@@ -804,6 +841,10 @@ fn short_reason(r: DisconnectReason) -> String {
 #[allow(clippy::too_many_arguments)]
 fn relay_in(w: &mut World, r: &mut Rng, cfg: &RelayCfg, faults_on: bool, to_server: bool, peer: usize, generation: u32, bytes: &[u8], out: &mut Outcome, acted: &mut bool) {
     let tick = w.tick;
+    if !to_server && w.muted == Some(peer) && generation == 0 && !bytes.is_empty() && (bytes[0] & 0xF) >= 4 {
+        out.count("relay_muted_session_datagram");
+        return;
+    }
     if !to_server {
         w.stale.entry((peer, generation)).or_insert_with(|| bytes.to_vec());
         if w.silenced == Some((peer, generation)) {
